@@ -254,17 +254,26 @@ pub fn init_fp() -> Fp {
     fp
 }
 
-/// One history on one backing container. `cont`: length of the continuations run on the rebuilt
-/// container (0, 1 or 2). Returns the fingerprint of the state reached.
-pub fn check_history<T: Back>(h: &[u8], cont: usize, acc: &mut Acc) -> Result<Fp, Mismatch> {
+/// Replay a history on a fresh real container and a fresh model, comparing after every step.
+fn reach<T: Back>(h: &[u8], mut count: Option<(&mut Acc, &mut bool)>) -> Result<(GC<T>, Model), Mismatch> {
     let mut c = GC::<T>::default();
     let mut m = Model::new();
-    let mut nontrivial = false;
     for (i, a) in h.iter().enumerate() {
         let a = act(*a);
-        count_collisions(a, &m, acc, &mut nontrivial);
+        if let Some((acc, nontrivial)) = count.as_mut() {
+            count_collisions(a, &m, acc, nontrivial);
+        }
         apply_both(&mut c, &mut m, a, i)?;
     }
+    Ok((c, m))
+}
+
+/// One history on one backing container: step-by-step comparison with the model, drain, and the
+/// replay law at the state reached (visible values, `==`, iter_all and drain of the rebuilt
+/// container). Returns the fingerprint of the implementation state reached.
+pub fn check_history<T: Back>(h: &[u8], acc: &mut Acc) -> Result<Fp, Mismatch> {
+    let mut nontrivial = false;
+    let (c, m) = reach::<T>(h, Some((acc, &mut nontrivial)))?;
     if nontrivial {
         acc.nontrivial();
     }
@@ -272,7 +281,6 @@ pub fn check_history<T: Back>(h: &[u8], cont: usize, acc: &mut Acc) -> Result<Fp
     let want_vis = model_vis(&m);
     let want_drain = model_drain(&m);
 
-    // replay law, part 1: from_iter(iter_all()) shows the same values, is == the original, has the same log
     let items = iter_all_items(&c);
     let segs = segments(&items);
     if segs.len() != m.depth() + 1 {
@@ -311,34 +319,38 @@ pub fn check_history<T: Back>(h: &[u8], cont: usize, acc: &mut Acc) -> Result<Fp
     if dc != want_drain {
         return Err(mismatch(format!("{want_drain:?}"), format!("{dc:?}"), format!("{}: ending all groups (and one more) shows different values", T::NAME)));
     }
-    let fp = fingerprint(&segs, &dc)?;
+    fingerprint(&segs, &dc)
+}
 
-    // replay law, part 2: the rebuilt container behaves like the model under every continuation
-    if cont > 0 {
-        let mut conts: Vec<Vec<u8>> = vec![];
-        for a in 0..N_ACT as u8 {
-            conts.push(vec![a]);
-            if cont > 1 {
-                for b in 0..N_ACT as u8 {
-                    conts.push(vec![a, b]);
-                }
+/// Replay law, second half, at the state reached by `h`: a container rebuilt from `iter_all()`
+/// behaves like the model under every continuation of length 1..=`cont` (return values and visible
+/// contents after every step, drain at the end).
+pub fn check_continuations<T: Back>(h: &[u8], cont: usize, acc: &mut Acc) -> Result<(), Mismatch> {
+    let (c, m) = reach::<T>(h, None)?;
+    let items = iter_all_items(&c);
+    let mut conts: Vec<Vec<u8>> = vec![];
+    for a in 0..N_ACT as u8 {
+        conts.push(vec![a]);
+        if cont > 1 {
+            for b in 0..N_ACT as u8 {
+                conts.push(vec![a, b]);
             }
-        }
-        for cs in &conts {
-            let mut r: GC<T> = rebuild(&items);
-            let mut mm = m.clone();
-            for (j, a) in cs.iter().enumerate() {
-                apply_both(&mut r, &mut mm, act(*a), h.len() + j).map_err(|mut e| {
-                    e.note = format!("replay law: rebuilt container under continuation [{}]: {}", render(cs), e.note);
-                    e
-                })?;
-            }
-            let (g, w) = (drain(r), model_drain(&mm));
-            if g != w {
-                return Err(mismatch(format!("{w:?}"), format!("{g:?}"), format!("{}: replay law: rebuilt container after continuation [{}], ending all groups", T::NAME, render(cs))));
-            }
-            acc.count("replay_continuations_checked");
         }
     }
-    Ok(fp)
+    for cs in &conts {
+        let mut r: GC<T> = rebuild(&items);
+        let mut mm = m.clone();
+        for (j, a) in cs.iter().enumerate() {
+            apply_both(&mut r, &mut mm, act(*a), h.len() + j).map_err(|mut e| {
+                e.note = format!("replay law: rebuilt container under continuation [{}]: {}", render(cs), e.note);
+                e
+            })?;
+        }
+        let (g, w) = (drain(r), model_drain(&mm));
+        if g != w {
+            return Err(mismatch(format!("{w:?}"), format!("{g:?}"), format!("{}: replay law: rebuilt container after continuation [{}], ending all groups", T::NAME, render(cs))));
+        }
+        acc.count("replay_continuations_checked");
+    }
+    Ok(())
 }
